@@ -25,7 +25,33 @@ def main():
             data = json.load(open(path))
             return mod.replay(data)
         run = Run(a.pid, tier_from_env(a.tier), seed_from_env())
-        return mod.run(run)
+        try:
+            return mod.run(run)
+        except InfraError:
+            raise
+        except Exception as e:  # noqa
+            # The check itself stopped on an exception.  On the unchanged tree this does not happen (the
+            # checks are run with many seeds); on a changed tree it means that the real code raised where
+            # the harness had no reason to expect it, or that the model / translator can no longer be lined
+            # up with the source.  Either way the property is no longer shown to hold: report it, with the
+            # traceback as the replay, rather than hiding it behind an infrastructure exit code.
+            tb = traceback.format_exc()
+            traceback.print_exc()
+            from .common import REPO
+            in_real_code = str(REPO) in tb
+            what = ("the real code raised %s: %s" if in_real_code else
+                    "the check could not be completed (%s: %s): model, translator or harness no longer line up with the source") \
+                % (type(e).__name__, str(e)[:200])
+            run.proof_broken.append(what)
+            run.build_log = tb[-6000:]
+            if not run.theorems:
+                try:
+                    from .common import audit
+                    run.theorems = audit(run.module)
+                except Exception:  # noqa
+                    pass
+            return run.finish("the run was cut short by an exception; see proof_obligations_broken",
+                              assumptions=["run cut short: " + what])
     except InfraError as e:
         print("INFRA-ERROR %s: %s" % (a.pid, e), file=sys.stderr)
         return 2
